@@ -150,7 +150,7 @@ pub fn check_code(code: &[u8], features: &[&str], acc: &mut Acc) -> CaseResult {
     let budget_paths = rr.paths.iter().any(|p| matches!(p.end, End::Budget));
     let loop_free = max_visit <= 1 && !budget_paths;
     let within = forks_to.values().all(|c| *c <= cfg.forks)
-        && rr.paths.iter().all(|p| !matches!(p.end, End::OutOfGas) && p.gas * 2 + 1000 < cfg.gas_limit as u64);
+        && rr.paths.iter().all(|p| p.gas_error_at.is_none() && p.gas * 2 + 1000 < cfg.gas_limit as u64);
     let invalid_kind = features.iter().any(|f| {
         f.contains("push-data") || f.contains("out-of-range") || f.contains("high-bits") || f.contains("non-jumpdest") || f.contains("symbolic")
     });
